@@ -197,6 +197,16 @@ def run_manifest(w, acc, name, periods, ppk, mode, q, now, total, template='hand
         if base_pid not in ppk:
             bad('unknown-period-id', f'Period id {p.id}')
             continue
+        # every track the definition gives the Period is there, with something to play (a track that only exists in the
+        # clear is played from its clear file when DRM is requested)
+        try:
+            defined = periods[int(base_pid[1:]) - 1]['tracks']
+        except (ValueError, IndexError):
+            defined = []
+        for ctype, _tid in defined:
+            if not any(rep.content_type == ctype for rep in p.reps):
+                bad(f'defined-track-missing|{ctype}', f'Period {p.id}: the definition has a {ctype} track, the manifest lists no '
+                    f'{ctype} Representation ({sorted(rep.id for rep in p.reps)})')
         pk, stream, src_off, pdur_def = ppk[base_pid]
         st = crawl.Stored.fixture(stream)
         pdur = p.duration
